@@ -4,8 +4,8 @@ from ..kprog import Prof, gen_program, setup_world, drive, excerpt, POOLS
 
 ID = 'C03'
 NONDETERMINISM_IS_VIOLATION = True
-TIERS = {'quick': {'runs': 16000, 'budget_s': 30, 'det_sample': 200},
-         'thorough': {'runs': 800000, 'budget_s': 600, 'det_sample': 3000}}
+TIERS = {'quick': {'runs': 16000, 'budget_s': 30, 'det_sample': 600, 'det_children': 3},
+         'thorough': {'runs': 800000, 'budget_s': 600, 'det_sample': 6000, 'det_children': 6}}
 RULE = ('generated kernel programs with all features (conditions, interrupts, shared events, joins, failures) and '
         'network scenarios, each executed uninterrupted (reference = the real kernel) and under a generated split plan '
         'of run(until=number) at due and in-between instants, run(until=event), step() x k and illegal stops; '
@@ -17,11 +17,97 @@ ASSUMPTIONS = ['a run(until=event) stop is only placed on events that succeed in
                'programs in which an exception escapes step() are split with step() only',
                'canonical trace = all recorded observations and processings, minus the stop sentinels, minus action '
                'and step numbers']
-PROBES = ['stop_at_instant_with_due_normal_event', 'until_event_gains_waiter_after_run_began',
+PROBES = ['network_scenario', 'stop_at_instant_with_due_normal_event', 'until_event_gains_waiter_after_run_began',
           'until_event_already_processed', 'nasty_stop_time', 'illegal_stop_refused', 'step_split', 'until_event_stop']
 
 
+NAMES = ['gold', 'silver', 'bronze', 'lead', 'tin', 'zinc']
+
+
+def gen_net(rng, tier):
+    """A network scenario: one scheduler under a bursty workload, optionally with string class ids (hash order!)."""
+    from .. import sched
+    kind = rng.choice(['DRR', 'DRR', 'WFQ', 'WRR', None, None])
+    net = sched.gen_sched_case(rng, tier, kind=kind, monitor=False, many_to_one=False,
+                               static=rng.random() < 0.3)
+    if rng.random() < 0.7:
+        m = dict((f, NAMES[f % len(NAMES)] + (str(f) if f >= len(NAMES) else '')) for f in net['flows'])
+        net['flows'] = [m[f] for f in net['flows']]
+        net['table'] = [[m[c], v] for c, v in net['table']]
+        net['workload'] = [[t, m[f], sz] for t, f, sz in net['workload']]
+    ts = sorted(set(x[0] for x in net['workload']))
+    plan = []
+    cand = [t for t in ts if t > 0]
+    for _ in range(rng.choice([1, 2, 3, 5])):
+        r = rng.random()
+        if r < 0.6 and cand:
+            plan.append(['until', rng.choice(cand) + rng.choice([0, 0, 0.0625, 0.5])])
+        else:
+            plan.append(['steps', rng.randint(1, 9)])
+    nums = sorted(p[1] for p in plan if p[0] == 'until')
+    plan = [['until', nums.pop(0)] if p[0] == 'until' else p for p in plan]
+    plan.append(['run'])
+    return {'engine': 'N', 'net': net, 'drive': plan}
+
+
+def run_net(case):
+    from .. import sched
+    from ..net import NetWorld, InTap, OutTap, Recorder, start_injector
+    net = case['net']
+
+    def execute(plan):
+        w = NetWorld()
+        s, f2c = sched.build(w, net)
+        s.out = OutTap(w, 's', s, Recorder(w, 'sink'))
+        start_injector(w, InTap(w, 's', s), [tuple(x) for x in net.get('workload', [])])
+        env = w.env
+        stops = 0
+        steps = 0
+        viol = []
+        for it in plan:
+            if it[0] == 'run':
+                steps += w.run(max_steps=40000)
+            elif it[0] == 'steps':
+                stops += 1
+                for _ in range(it[1]):
+                    try:
+                        env.step()
+                        steps += 1
+                    except Exception:
+                        break
+            elif it[0] == 'until':
+                t = it[1]
+                if t <= env.now:
+                    try:
+                        env.run(until=t)
+                        viol.append(('C03.2', 'run(until=%r) at now=%r was not refused' % (t, env.now)))
+                    except ValueError:
+                        pass
+                    continue
+                stops += 1
+                try:
+                    env.run(until=t)
+                    if env.now != t:
+                        viol.append(('C03.2', 'run(until=%r) returned with now == %r' % (t, env.now)))
+                except Exception as e:
+                    w.rec('ERR', env.step_no, san(e))
+        return w, stops, steps, viol
+    ref, _, _, _ = execute([['run']])
+    w, stops, steps, viol = execute(list(case.get('drive', [])) + [['run']])
+
+    def cn(log):
+        return [(r[0],) + tuple(r[2:]) for r in log]
+    d = first_diff(cn(ref.log), cn(w.log))
+    if d is not None:
+        viol.append(('C03.4', 'network scenario (%s): split execution diverges from the uninterrupted run at record %d: '
+                     'uninterrupted %r, split %r' % ((net.get('kind'),) + d)))
+    return {'viol': viol, 'digest': digest_of(w.log), 'nontrivial': stops >= 2, 'stats': {'network_scenario': 1},
+            'simtime': float(w.env.now), 'steps': steps}
+
+
 def gen(rng, tier):
+    if rng.random() < 0.25:
+        return gen_net(rng, tier)
     big = tier == 'thorough' and rng.random() < 0.3
     prof = Prof(rng)
     prof.pool = rng.choice(['GRID', 'GRID', 'INTS', 'FLOAT', 'NASTY'])
@@ -204,6 +290,8 @@ def check_split(w, case, ref_log):
 
 
 def run(case):
+    if case.get('engine') == 'N':
+        return run_net(case)
     ref = setup_world(case)
     drive(ref, [['run']], max_steps=4000)
     ref_log = ref.env.log
